@@ -185,7 +185,7 @@ def run(tier, seed):
         failing = []
         failing += corpus(ck, tmp)
         failing += roundtrip_stream(ck, tmp, 110 if not ck.deep else 1500)
-        failing += cli_stream(ck, tmp, 8 if not ck.deep else 60)
+        failing += cli_stream(ck, tmp, 12 if not ck.deep else 60)
         failing += history_stream(ck, tmp)
         failing += file_form_streams(ck, tmp)
         ck.cov["rule"] = ("envelopes = implementation create() of generated descriptions (authentication blocks incl. CWT payloads, "
@@ -499,7 +499,8 @@ def cli_stream(ck, tmp, n):
             fh.write(r[1])
         fmt = ["yaml", "json"][i % 2]
         hier = (i // 2) % 2 == 1
-        out = os.path.join(d, "parsed." + fmt)
+        # the file form is taken from the extension, however it is spelled: .yaml / .YAML / .Yaml
+        out = os.path.join(d, "parsed." + [fmt, fmt.upper(), fmt.capitalize()][(i // 4) % 3])
         args = ["parse", "--input-file", src, "--output-file", out]
         if hier:
             args += ["--parse-hierarchy"]
